@@ -289,6 +289,46 @@ struct Runner {
         return true;
     }
 
+    // a call the filter must refuse (input and desired signal of different lengths): afterwards coeffs() and every later
+    // y / e must be exactly what they would have been without it (the a-priori relation is over the ACCEPTED samples)
+    bool rejected_call(uint32_t seed) {
+        Rng rr(mix(seed, 0x4E1));
+        const int n1 = int(rr.range(1, 2 * L + 3));
+        const int n2 = n1 + int(rr.range(1, 3)) * (rr.chance(0.5) || n1 <= 3 ? 1 : -1);
+        dsplib::base_array<T> xa(n1);
+        dsplib::base_array<T> da(std::max(n2, 0));
+        for (int i = 0; i < n1; ++i) {
+            xa[i] = Traits<T>::down(Traits<T>::cplx ? cd(rr.normal(), rr.normal()) : cd(rr.normal() * 3, 0));
+        }
+        for (int i = 0; i < da.size(); ++i) {
+            da[i] = Traits<T>::down(cd(rr.normal(), 0));
+        }
+        const dsplib::base_array<T> before(flt.coeffs());
+        set_cur_opf("C12 %s process with mismatched lengths %d / %d", cfg().c_str(), n1, int(da.size()));
+        bool threw = false;
+        try {
+            (void)flt.process(xa, da);
+        } catch (const std::exception&) {
+            threw = true;
+        }
+        if (twin) {
+            try {
+                (void)twin->process(xa, da);
+            } catch (const std::exception&) {
+            }
+        }
+        if (!threw) {
+            res.fail("C12:mismatched-call-accepted", fmt("%s: process(x[%d], d[%d]) returned instead of rejecting the call", cfg().c_str(), n1, int(da.size())));
+            return false;
+        }
+        if (!same_bits(before, dsplib::base_array<T>(flt.coeffs()))) {
+            res.fail("C12:rejected-call-changed-coeffs", fmt("%s: coeffs() changed by a call that was rejected (x[%d], d[%d])", cfg().c_str(), n1, int(da.size())));
+            return false;
+        }
+        res.inc("fault.rejected_call_mid_stream");
+        return true;
+    }
+
     void make_copy() {
         twin = std::make_unique<F>(flt);
         res.inc("fault.copied_mid_stream");
@@ -435,6 +475,11 @@ void drive(R& rn, const Plan& pl, Result& res) {
                     return;
                 }
             }
+        } else if (op.kind == "reject") {
+            rn.pattern += "R";
+            if (!rn.rejected_call(uint32_t(op.iarg(0)))) {
+                return;
+            }
         } else if (op.kind == "copy") {
             rn.pattern += "C";
             rn.make_copy();
@@ -549,7 +594,10 @@ Plan gen(uint64_t seed, const std::string& tier) {
     for (int i = 0; i < nev; ++i) {
         const int c = int(r.below(10));
         Op op;
-        if (c == 5 && r.chance(0.4)) {
+        if (c == 4 && r.chance(0.3)) {
+            op.kind = "reject";
+            op.a = {double(r.seed32())};
+        } else if (c == 5 && r.chance(0.4)) {
             op.kind = "copy";
         } else if (c < 3) {
             op.kind = "ones";
